@@ -83,6 +83,7 @@ def _record_shipped(path: str, tier: str, prop: str, res: Result) -> int:
             d = drivers.mutate(rng, d)
         inputs.append(d[:4096])
     inputs += list(drivers.nested(rng, n_nest))
+    inputs += drivers.KNOWN_TRIGGERS
     full = Recorder()
     from multidecoder.registry import get_analyzers
 
@@ -92,7 +93,7 @@ def _record_shipped(path: str, tier: str, prop: str, res: Result) -> int:
     with open(path, "w") as f:
         for i, data in enumerate(inputs):
             rec = full if i % 4 == 0 else light
-            k = 10 if rng.random() < 0.5 else rng.choice(ks)
+            k = 10 if (rng.random() < 0.5 or data in drivers.KNOWN_TRIGGERS) else rng.choice(ks)
             tr = rec.scan(data, k, lo=(prop == "C07"), subs=(prop == "C08"))
             tr["origin"] = "shipped"
             tr["registry"] = "default" if rec is full else "analyzers"
